@@ -193,6 +193,36 @@ fn cut(buf: &[u8]) {
     for i in range(0, len(cases), per * 2):
         harness("c06_shapes4_%03d" % (i // (per * 2)), cases[i:i + per * 2], "thorough", "all trees with 4 nodes over {scalar, text} leaves, preferred widths", 18)
     n_c = len(cases)
+    # ---- E: mode-switch family.  The algorithm counts items (`nrounds`), counts open indefinite containers (`irounds`) and
+    # switches to an explicit stack when an indefinite container appears inside a definite one with >= 2 items outstanding.
+    # Shapes: [outer indefinite container or none] > definite array (1..3 items) or map (1..2 pairs) holding an
+    # indefinite array / map (empty or non-empty) at every position, scalars elsewhere, a scalar after it inside the outer.
+    S = ("leaf", "S")
+    inners = [("iarr", []), ("imap", []), ("iarr", [S]), ("imap", [S, S])]
+    mids = []
+    for n in (1, 2, 3):
+        for j in range(n):
+            for inner in inners:
+                kids = [S] * n; kids[j] = inner
+                mids.append(("arr", kids))
+    for pairs in (1, 2):
+        for j in range(2 * pairs):
+            for inner in inners[:2] + inners[2:3]:
+                kids = [S] * (2 * pairs); kids[j] = inner
+                mids.append(("map", kids))
+    cases = []
+    for mid in mids:
+        for outer in ("none", "iarr", "imap", "tag"):
+            if outer == "none": t = mid
+            elif outer == "iarr": t = ("iarr", [mid, S])
+            elif outer == "imap": t = ("imap", [S, mid])
+            else: t = ("tag", mid)
+            txt, end = case_text(t, [0], "none")
+            cases.append(txt)
+    for i in range(0, len(cases), per):
+        harness("c06_switch_%02d" % (i // per), cases[i:i + per], "quick", "mode-switch family: indefinite container at every position of a definite array (<= 3 items) / map (<= 2 pairs), alone, tagged, or inside an indefinite array / map", 16)
+    n_e = len(cases)
+    print("switch cases:", n_e)
     # Prefix (truncation) cases are NOT generated: CBMC needs more than 10 minutes and > 14 GB for a single call of the
     # real `skip` whose input ends on an item boundary (measured: `c7`, ``, `9b ff*8 01 02`), and cuts inside a head are
     # unpredictable (1 s .. > 5 min).  The truncation clause of C06 is reported as uncovered.
